@@ -29,6 +29,8 @@ def pureS : AStmt → Bool
   | .ifS _ c t e => noCallE c && pureB t && pureB e
   | .whileS _ c b => noCallE c && pureB b
   | .forS _ _ it extra b => noCallE it && noCallO extra && pureB b
+  | .withS .. => false      -- enter / exit are logged events
+  | .tryS .. => false       -- not covered by the functional theorems (an out-of-band raise could be caught)
 def pureB : List AStmt → Bool
   | [] => true
   | s :: r => pureS s && pureB r
@@ -45,6 +47,8 @@ def pureTS : TStmt → Bool
   | .ifF c b e _ _ => noCallE c && pureTB b && pureTB e
   | .whileF c b _ => noCallE c && pureTB b
   | .forF _ it extra b _ => noCallE it && noCallO extra && pureTB b
+  | .withT .. => false
+  | .tryT .. => false
 def pureTB : List TStmt → Bool
   | [] => true
   | s :: r => pureTS s && pureTB r
@@ -114,10 +118,15 @@ def asgTS : TStmt → List Name
   | .ifF _ b e decl _ => decl ++ (asgTB b ++ asgTB e)
   | .whileF _ b decl => decl ++ asgTB b
   | .forF x _ _ b decl => decl ++ (x :: asgTB b)
+  | .withT _ b => asgTB b
+  | .tryT b hs f => asgTB b ++ (asgTH hs ++ asgTB f)
   | _ => []
 def asgTB : List TStmt → List Name
   | [] => []
   | s :: r => asgTS s ++ asgTB r
+def asgTH : List (Nat × List TStmt) → List Name
+  | [] => []
+  | (_, b) :: r => asgTB b ++ asgTH r
 end
 
 /-! ### get_state / set_state -/
@@ -445,6 +454,8 @@ theorem frameF (X : Ext) : ∀ n, FrameF X n := by
                       · rw [if_neg htv] at h
                         simp only [Option.some.injEq, Prod.mk.injEq] at h; obtain ⟨_, rfl⟩ := h; exact ⟨lr, fr⟩
                 | _ => simp only [Option.some.injEq, Prod.mk.injEq] at h; obtain ⟨_, rfl⟩ := h; exact ⟨hlb, fb⟩
+      | withT tag body => simp [pureTS] at hp
+      | tryT body hs fin => simp [pureTS] at hp
     · intro b μ o ν hp h
       cases b with
       | nil => simp only [execFB, Option.some.injEq, Prod.mk.injEq] at h; obtain ⟨_, rfl⟩ := h; exact ⟨rfl, fun _ _ => rfl⟩
